@@ -50,6 +50,9 @@ struct Mock {
     answers: Vec<u8>,
 }
 fn key_of(module: &(dyn Module + Sync)) -> u8 {
+    if module.debug_identifier().is_some_and(|d| !d.is_nil()) {
+        return 3;
+    }
     let f = module.code_file().to_string();
     f.rsplit('\\').next().unwrap_or("").trim_start_matches("mod").trim_end_matches(".dll").parse().expect("mock key")
 }
@@ -115,7 +118,13 @@ impl FrameWalker for Walker {
 /// keys 0, 1: unrelated modules. key 2: the TWIN of key 0 — same debug file and debug id, another
 /// code file (the same binary under a second name). It is a distinct module: it must be located by
 /// its own supplier call and get its own stats entry.
+/// key 3: ANOTHER BUILD of key 0 — same code file, code id and debug file, a different debug id (a DLL
+/// replaced on disk while the process runs). Also a distinct module.
 fn module(k: u8) -> SimpleModule {
+    if k == 3 {
+        let id: debugid::DebugId = "07070707-0707-0707-0707-070707070707-3".parse().expect("debug id");
+        return SimpleModule::from_basic_info(Some("mod0.pdb".into()), Some(id), Some("C:\\dir\\mod0.dll".into()), None);
+    }
     let dbg = if k == 2 { 0 } else { k };
     SimpleModule::from_basic_info(Some(format!("mod{dbg}.pdb")), Some(debugid::DebugId::nil()), Some(format!("C:\\dir\\mod{k}.dll")), None)
 }
@@ -222,12 +231,17 @@ fn check(cfg: &Cfg, x: &Execution, b: &Built) -> Option<(String, String)> {
     }
     let st = b.sym.stats();
     let names: BTreeSet<String> = st.keys().cloned().collect();
-    let want_names: BTreeSet<String> = wanted.iter().map(|k| format!("mod{k}.dll")).collect();
+    let want_names: BTreeSet<String> = wanted.iter().map(|k| format!("mod{}.dll", if *k == 3 { 0 } else { *k })).collect();
     if names != want_names {
         return Some(("c12:stats-entries".into(), format!("stats() keys {names:?} != {want_names:?}")));
     }
     for k in &wanted {
-        let s = &st[&format!("mod{k}.dll")];
+        // keys 0 and 3 are two builds of mod0.dll: they share one stats entry (keyed by leaf name), whose
+        // flags come from whichever was located last — not compared when both were asked for
+        if (*k == 0 || *k == 3) && wanted.contains(&0) && wanted.contains(&3) {
+            continue;
+        }
+        let s = &st[&format!("mod{}.dll", if *k == 3 { 0 } else { *k })];
         let a = cfg.answers[*k as usize];
         let want = match a {
             0 => (true, false),
@@ -396,6 +410,19 @@ fn configs(tier: Tier) -> Vec<Cfg> {
             for susp in 0..=(if t == 2 { 2 } else { 1 }) {
                 push(&ts, susp, vec![0, 0, 1], 1, 0);
                 push(&ts, susp, vec![2, 0, 0], 0, 0);
+            }
+        }
+    }
+    // --- two builds of one module (key 3 = key 0 with another debug id)
+    let build_scripts: Vec<Vec<(u8, u8)>> = vec![vec![(0, 0)], vec![(0, 3)], vec![(0, 0), (0, 3)], vec![(0, 3), (0, 0)], vec![(1, 3)]];
+    for t in 2..=3 {
+        for ts in multisets(&build_scripts, t) {
+            if !ts.iter().flatten().any(|(_, k)| *k == 3) || !ts.iter().flatten().any(|(_, k)| *k == 0) {
+                continue;
+            }
+            for susp in 0..=(if t == 2 { 2 } else { 1 }) {
+                push(&ts, susp, vec![0, 0, 0, 1], 1, 0);
+                push(&ts, susp, vec![2, 0, 0, 0], 0, 0);
             }
         }
     }
